@@ -246,6 +246,28 @@ theorem yield_total (t : Table ν) (c step : Nat) (s : Script)
     · exact h3
     · exact absurd hd h1
 
+/-- **weights_of_any_numeric_type**: with the array built as floats (the repaired line) the normalisation goes through
+    whatever way the weights were written (`probability=1`, `1.0`, mixed) -/
+theorem weights_of_any_numeric_type (ws : List PyNum) : normaliseOK true ws = true := rfl
+
+/-- before the repair a due set whose weights were ALL written as integers raised at its first free slot -/
+theorem integer_weights_raised_pinned (ws : List PyNum) (hne : ws ≠ []) (hall : ∀ w ∈ ws, w = .int) :
+    normaliseOK false ws = false := by
+  cases ws with
+  | nil => exact absurd rfl hne
+  | cons w ws =>
+    simp only [normaliseOK, inplaceTrueDivOK, arrayIsFloat, Bool.false_or, List.isEmpty_cons, List.any_eq_true,
+      Bool.or_eq_false_iff, true_and]
+    simp only [Bool.eq_false_iff, ne_eq, List.any_eq_true, not_exists, not_and]
+    intro x hx hxf
+    have := hall x hx
+    rw [this] at hxf
+    cases hxf
+
+/-- … and one float among them was enough to hide it (why the package's own tests, which pass `probability=1` next to
+    default `1.0` weights, never saw it) -/
+example : normaliseOK false [.int, .float] = true ∧ normaliseOK false [.int, .int] = false := by decide
+
 /-- Σ of *all* minimum counts ≤ cycles (the `add_move` invariant) gives the hypothesis of `yield_total` at every step -/
 theorem due_min_le_of_inv (t : Table ν) (c step : Nat) (h : minSum t ≤ c) : minSum (dueList t step) ≤ c :=
   Nat.le_trans (minSum_dueList_le t step) h
